@@ -45,7 +45,7 @@ fn visible(f: &Fold) -> Fold {
         .collect()
 }
 
-fn tomb_upd(key: &str, t: u64, r: u64) -> Upd {
+pub fn tomb_upd(key: &str, t: u64, r: u64) -> Upd {
     lww_upd(key, b"", t, r, true)
 }
 
@@ -118,7 +118,7 @@ fn classify(before: &Fold, after: &Fold, tombs_removed: u64, all: &[Upd], cutoff
 }
 
 /// flush the layout (one segment per group), compact, compare recovery before / after
-async fn layout_case(out: &mut Out, groups: &[Vec<Upd>], c: &CCfg, read_fault: Option<(u64, Fault)>, tag: &str, expect_known: bool) {
+pub async fn layout_case(out: &mut Out, groups: &[Vec<Upd>], c: &CCfg, read_fault: Option<(u64, Fault)>, tag: &str, expect_known: bool) {
     let mut p = Proc::new(out, 1, &[]).await;
     let mut all: Vec<Upd> = Vec::new();
     for (gi, g) in groups.iter().enumerate() {
